@@ -100,6 +100,15 @@ fn mutate(schema: &str, doc: &mut Value, m: &Value, variant: usize) {
             let new = if cur.get("s").is_some() { json!({"i": 42}) } else if cur.get("b").is_some() { json!({"s": "true"}) } else { json!({"s": "a single string instead of an array"}) };
             t.insert(last.to_string(), new);
         }
+        "retype-as-table" => {
+            // `key = "value"` becomes `key = { value = {} }` (for arrays: every element)
+            let (last, parents) = segs.split_last().unwrap();
+            let t = table_at(doc, parents);
+            let cur = t.get(*last).unwrap().clone();
+            let wrap = |v: &Value| -> Value { let mut m = serde_json::Map::new(); m.insert(v["s"].as_str().unwrap().to_string(), json!({"t": {}})); json!({"t": m}) };
+            let new = if cur.get("s").is_some() { wrap(&cur) } else { json!({"a": cur["a"].as_array().unwrap().iter().map(wrap).collect::<Vec<_>>()}) };
+            t.insert(last.to_string(), new);
+        }
         "retype-table" => {
             // the table (or every element of the array of tables) becomes an array: of the values it
             // held, or empty
@@ -335,6 +344,8 @@ fn main() {
             let v = &raw[*i];
             let signature = if v["mut"]["k"] == "retype-table" && p.contains("must make parsing fail") {
                 format!("{}: an array is accepted where the table {} must be", v["schema"].as_str().unwrap(), v["mut"]["p"].as_str().unwrap())
+            } else if v["mut"]["k"] == "retype-as-table" && p.contains("must make parsing fail") {
+                format!("{}: a one-key table is accepted where the string {} must be", v["schema"].as_str().unwrap(), v["mut"]["p"].as_str().unwrap())
             } else if v["mut"]["k"] == "near-miss-key" {
                 format!("{}: undefined key accepted: {}", v["schema"].as_str().unwrap(), p.split('"').nth(1).unwrap_or("?"))
             } else {
